@@ -144,8 +144,9 @@ def build(spec):
                 kw["unique"] = True
             cols.append(sa.Column(c["name"], mk_type(c["type"]), **kw))
         extra = []
-        if t.get("pk_name") and any(c["pk"] for c in t["cols"]):
-            extra.append(sa.PrimaryKeyConstraint(*[c["name"] for c in t["cols"] if c["pk"]], name=t["pk_name"]))
+        if any(c["pk"] for c in t["cols"]) and (t.get("pk_name") or t.get("pk_order")):
+            # declared order of a composite key may differ from the column order
+            extra.append(sa.PrimaryKeyConstraint(*pk_order(t), name=t.get("pk_name")))
         for f in t["fks"]:
             extra.append(_fkc(sa, m, f, spec.get("schema")))
         for u in t["uqs"]:
@@ -159,6 +160,11 @@ def build(spec):
                 kw["sqlite_where"] = sa.text(ix["where"])
             sa.Index(ix["name"], *[tb.c[c] for c in ix["cols"]], unique=ix["unique"], **kw)
     return m
+
+
+def pk_order(t):
+    """declared order of the primary key columns"""
+    return list(t.get("pk_order") or [c["name"] for c in t["cols"] if c["pk"]])
 
 
 def _fkc(sa, m, f, schema=None):
@@ -254,7 +260,7 @@ def expected(spec):
     out = {}
     for t in spec["tables"]:
         tb = m.tables[(spec["schema"] + "." if spec.get("schema") else "") + t["name"]]
-        pkcols = [c["name"] for c in t["cols"] if c["pk"]]
+        pkcols = pk_order(t)
         cols = []
         for c in t["cols"]:
             col = tb.c[c["name"]]
@@ -344,6 +350,22 @@ def check_spec(spec):
             return bad + [("reflect-warning", "MetaData.reflect: %s" % w)]
         except Exception as e:  # noqa
             return bad + [("reflect-exception", "MetaData.reflect %s: %s" % (type(e).__name__, e))]
+        # the reflected Table objects themselves (Table(autoload_with=...) path), not the Inspector dicts
+        pre = spec["schema"] + "." if spec.get("schema") else ""
+        for t in spec["tables"]:
+            rt = m2.tables.get(pre + t["name"])
+            if rt is None:
+                bad.append(("reflect-table-missing", "MetaData.reflect did not produce %r" % t["name"]))
+                continue
+            got_pk = [c.name for c in rt.primary_key.columns]
+            if got_pk != pk_order(t):
+                bad.append(("reflect-table-primary-key-order", "%s: declared PRIMARY KEY %s, reflected Table.primary_key %s" % (t["name"], pk_order(t), got_pk)))
+            if [c.name for c in rt.columns] != [c["name"] for c in t["cols"]]:
+                bad.append(("reflect-table-column-order", "%s: %s vs %s" % (t["name"], [c.name for c in rt.columns], [c["name"] for c in t["cols"]])))
+            want_fk = sorted((tuple(f["cols"]), f["rtable"], tuple(f["rcols"])) for f in t["fks"])
+            got_fk = sorted((tuple(fk.column_keys), fk.referred_table.name, tuple(e.column.name for e in fk.elements)) for fk in rt.foreign_key_constraints)
+            if want_fk != got_fk:
+                bad.append(("reflect-table-foreign-keys", "%s: declared %s, reflected Table has %s" % (t["name"], want_fk, got_fk)))
         eng2 = new_engine()
         try:
             try:
@@ -409,7 +431,7 @@ def gen_spec(rng, nasty):
             c = rng.choice(pool) if rng.random() < 0.6 else "c%d" % rng.randint(1, 30)
             if c.lower() not in [x.lower() for x in cnames]:
                 cnames.append(c)
-        npk = rng.choice([0, 1, 1, 1, 2]) if ncol > 1 else rng.choice([0, 1])
+        npk = rng.choice([0, 1, 1, 2, 2, 3]) if ncol > 1 else rng.choice([0, 1])
         pkcols = rng.sample(cnames, min(npk, ncol))
         cols = []
         for c in cnames:
@@ -417,6 +439,11 @@ def gen_spec(rng, nasty):
             cols.append({"name": c, "type": rng.choice(TYPE_EXPRS), "nullable": (rng.random() < 0.6) and not pk, "pk": pk,
                          "default": None if pk else rng.choice(DEFAULTS), "unique": (not pk) and rng.random() < 0.12})
         t = {"name": tn, "cols": cols, "pk_name": fresh("pk") if (pkcols and rng.random() < 0.3) else None, "fks": [], "uqs": [], "ixs": [], "cks": []}
+        if len(pkcols) > 1 and rng.random() < 0.7:
+            order = list(pkcols)  # rng.sample order: usually not the column order
+            if rng.random() < 0.5:
+                order = [c for c in reversed(cnames) if c in pkcols]
+            t["pk_order"] = order
         for _ in range(rng.choice([0, 0, 1, 2])):
             k = rng.randint(1, min(2, ncol))
             uc = rng.sample(cnames, k)
